@@ -286,6 +286,15 @@ def _in_list(node, lst):
     return any(node is x for x in lst)
 
 
+# calls that always raise (the parser's error reporter; sys.exit)
+NEVER_RETURN = ("error_msg",)
+
+
+def _never_returns(st):
+    return isinstance(st, ast.Expr) and isinstance(st.value, ast.Call) and isinstance(st.value.func, ast.Attribute) \
+        and st.value.func.attr in NEVER_RETURN
+
+
 def early_exit_guards(func, node):
     """Tests `if T: return/raise/continue` that precede `node` in the same
     statement list (any enclosing level): node is reached only when T is
@@ -300,7 +309,7 @@ def early_exit_guards(func, node):
                     if st is child:
                         break
                     if isinstance(st, ast.If) and not st.orelse and st.body and \
-                            isinstance(st.body[-1], (ast.Return, ast.Raise, ast.Continue, ast.Break)):
+                            (isinstance(st.body[-1], (ast.Return, ast.Raise, ast.Continue, ast.Break)) or _never_returns(st.body[-1])):
                         out.append(_positive(st.test, False))
         if p is func:
             break
